@@ -81,7 +81,31 @@ fn refused(e: rcgen::Error) -> Result<Produced, String> {
 fn produce(a: &Art, env: &Env) -> Result<Produced, String> {
 	match a {
 		Art::Cert(c) => {
-			let params = mk::cert_params(&c.spec)?;
+			// a third of the certificates get their parameters by editing an object that held other
+			// content first (attributes removed and pushed, lists cleared and refilled): what comes out
+			// may depend on the final field values only
+			let params = if crate::runner::hash_json(&serde_json::to_value(&c.spec).unwrap()) % 3 == 0 {
+				let mut other = c.spec.clone();
+				other.dn.0.reverse();
+				other.dn.0.push((DnTypeSpec::Custom(vec![1, 3, 6, 1, 4, 1, 55555, 77]), DnValueSpec::new(StrKind::Utf8, "scaffold")));
+				other.sans.reverse();
+				other.key_usages.reverse();
+				let mut p = mk::cert_params(&other)?;
+				mk::cert_params_onto(&mut p, &c.spec, true)?;
+				p
+			} else {
+				let mut p = mk::cert_params(&c.spec)?;
+				// another third: a small edit after construction (drop the first attribute, add a new one)
+				if crate::runner::hash_json(&serde_json::to_value(&c.spec).unwrap()) % 3 == 1 {
+					let first = p.distinguished_name.iter().next().map(|(t, _)| t.clone());
+					if let Some(t) = first {
+						p.distinguished_name.remove(t);
+						p.distinguished_name.push(rcgen::DnType::CustomDnType(vec![1, 3, 6, 1, 4, 1, 55555, 78]), "edited");
+						p.distinguished_name.push(rcgen::DnType::CustomDnType(vec![1, 3, 6, 1, 4, 1, 55555, 79]), "edited too");
+					}
+				}
+				p
+			};
 			let input = params.clone();
 			let cert = match &env.issuer {
 				None => params.self_signed(&env.subject_key),
